@@ -659,7 +659,26 @@ namespace xsimd
         template <size_t N, class A>
         XSIMD_INLINE batch<uint16_t, A> rotate_left(batch<uint16_t, A> const& self, requires_arch<avx2>) noexcept
         {
-            return _mm256_alignr_epi8(self, self, N);
+            // N counts 16-bit elements; _mm256_alignr_epi8 counts bytes and works per 128-bit lane, so
+            // feed it the register and the register with its halves swapped
+            constexpr size_t bytes = (N % 16) * sizeof(uint16_t);
+            __m256i swapped = _mm256_permute2x128_si256(self, self, 0x01);
+            XSIMD_IF_CONSTEXPR(bytes == 0)
+            {
+                return self;
+            }
+            else XSIMD_IF_CONSTEXPR(bytes < 16)
+            {
+                return _mm256_alignr_epi8(swapped, self, bytes % 16);
+            }
+            else XSIMD_IF_CONSTEXPR(bytes == 16)
+            {
+                return swapped;
+            }
+            else
+            {
+                return _mm256_alignr_epi8(self, swapped, bytes % 16);
+            }
         }
         template <size_t N, class A>
         XSIMD_INLINE batch<int16_t, A> rotate_left(batch<int16_t, A> const& self, requires_arch<avx2>) noexcept
